@@ -1,4 +1,4 @@
-import Minimq.Proofs.Ids
+import Minimq.Proofs.IdsClosed
 /-
 C07 — packet identifiers in flight are non-zero and pairwise distinct, for histories of any length.
 
@@ -57,6 +57,25 @@ theorem C07_inbound (d : SessionData) (r : Runtime) (p : Recv) (h : d.IdInv) :
 theorem C07_armReplay (d : SessionData) (h : d.IdInv) :
     ({ d with outbound := d.outbound.armReplay } : SessionData).IdInv :=
   ⟨IdInv_armReplay h.out, h.pid⟩
+
+/-- **All programs.** After any sequence of API calls, I/O decisions (partial writes, faults, end
+of stream), inbound bytes, clock ticks, cancellations, drops and reconnects — of any length — the
+identifiers in flight are pairwise distinct and non-zero, both lists are within their capacities and
+the counter is in 1..65535. -/
+theorem C07_all_programs (cfg : Cfg) (ds : List Directive) :
+    (ds.foldl World.execDirective { sess := Session.new cfg }).sess.data.IdInv :=
+  run_inv closed_IdInv ds { sess := Session.new cfg } (C07_init cfg.tx)
+
+/-- …so in every reachable state the next identifier handed out is non-zero and not in use. -/
+theorem C07_every_allocation_is_fresh (cfg : Cfg) (ds : List Directive) :
+    let d := (ds.foldl World.execDirective { sess := Session.new cfg }).sess.data
+    d.nextPacketId.2 ≠ 0 ∧ d.nextPacketId.2 ∉ d.outbound.usedIds := by
+  intro d
+  have h := C07_all_programs cfg ds
+  have hf := nextPacketId_fresh d h.pid h.out.retCap h.out.relCap
+  simp only [] at hf
+  refine ⟨by omega, ?_⟩
+  rw [usedIds_mem]; simp [hf.2.2.1, hf.2.2.2.1]
 
 /-- Non-vacuity: the counter at its last value, identifier 1 still in flight in the release list and
 identifiers 65535 and 2 retained — the allocator must skip three candidates. -/
